@@ -5,7 +5,7 @@ cp /tmp/mut/$id/SEEDED/patch.diff $d/patch.diff; cp /tmp/mut/$id/SEEDED/demo.* $
 python3 - "$id" "$name" "$crate" "$needs" "$caught" <<'PY'
 import json,sys
 id,name,crate,needs,caught=sys.argv[1:6]
-pid=id.split('-')[0]
+pid=name[:3]
 json.dump({"property":pid,"name":name,"breaks":pid,"needs_to_manifest":needs,
  "origin":"independent sub-agent given only the property text and a scratch worktree",
  "confirmed":{"existing_suite_with_change":"58 passed, 0 failed (cargo test --workspace --no-fail-fast --offline in the scratch worktree)",
